@@ -176,6 +176,37 @@ func genCodecConsts(repo string) (string, error) {
 		w("fixed8_"+n, v)
 	}
 
+	// fixedn: size of the precomputed power-of-ten table
+	src, err = ccSrc(repo, "pkg/encoding/fixedn/decimal.go")
+	if err != nil {
+		return "", err
+	}
+	f, err = parser.ParseFile(fs, "decimal.go", src, 0)
+	if err != nil {
+		return "", err
+	}
+	mapFound := false
+	for _, d := range f.Decls {
+		gd, ok := d.(*ast.GenDecl)
+		if !ok || gd.Tok != token.CONST {
+			continue
+		}
+		for _, s := range gd.Specs {
+			vs := s.(*ast.ValueSpec)
+			for i, n := range vs.Names {
+				if n.Name == "maxAllowedPrecision" && i < len(vs.Values) {
+					if v, ok := intLit(vs.Values[i]); ok {
+						w("fixedn_maxAllowedPrecision", v)
+						mapFound = true
+					}
+				}
+			}
+		}
+	}
+	if !mapFound {
+		return "", fmt.Errorf("decimal.go: maxAllowedPrecision not found")
+	}
+
 	// curves
 	k1, err := keys.NewSecp256k1PrivateKey()
 	if err != nil {
